@@ -92,4 +92,159 @@ theorem encodeRecord_length (t : Template) (vals : List Bytes) (hw : Wire.V9.wfR
   simp only [Wire.V9.wfRecord, Bool.and_eq_true, beq_iff_eq] at hw
   exact wf_flatten_length _ _ hw.1 hw.2
 
+/-! ## Level 2: the record loop and a whole data flowset -/
+
+/-- octets of a list of records -/
+def body (t : Template) (records : List (List Bytes)) : Bytes :=
+  (records.map (Wire.V9.encodeRecord t)).flatten
+
+theorem body_nil (t : Template) : body t [] = [] := rfl
+theorem body_cons (t : Template) (x : List Bytes) (xs : List (List Bytes)) :
+    body t (x :: xs) = Wire.V9.encodeRecord t x ++ body t xs := by
+  simp [body]
+
+/-- **C06 level 2a (record loop)**: over `records ++ pad ++ rest`, with the set header announcing
+exactly `records ++ pad`, the loop yields all records in order, stops in front of the padding, reports
+no error -/
+theorem setLoop_data (ctx : Ctx) (hsid : 255 < ctx.setId) (hbig : 4 < Wire.V9.recLen ctx.tr) :
+    ∀ (records : List (List Bytes)) (pad rest : Bytes) (fuel : Nat) (st : St),
+      (∀ x ∈ records, Wire.V9.wfRecord ctx.tr x = true) →
+      pad.length ≤ 4 →
+      st.r.rem = body ctx.tr records ++ (pad ++ rest) →
+      leftInt ctx st.r = (((body ctx.tr records).length + pad.length : Nat) : Int) →
+      records.length < fuel →
+      setLoop ctx fuel st =
+        ({ st with r := ⟨pad ++ rest, st.r.cnt + (body ctx.tr records).length⟩,
+                   recs := st.recs ++ records.map (expectedRecord ctx.tr) }, none) := by
+  intro records
+  induction records with
+  | nil =>
+    intro pad rest fuel st _ hpad hrem hlen hfuel
+    cases fuel with
+    | zero => omega
+    | succ n =>
+      simp only [setLoop]
+      have hc : contCond ctx st.r = false := by
+        simp only [contCond, Bool.and_eq_false_iff, decide_eq_false_iff_not]
+        left
+        rw [hlen, body_nil]; simp only [List.length_nil]; omega
+      rw [hc]
+      simp only [body_nil, List.nil_append, List.length_nil, Nat.add_zero, List.map_nil,
+        List.append_nil] at hrem ⊢
+      cases st with
+      | mk r cache rs =>
+        cases r with
+        | mk rem cnt => simp at hrem ⊢; exact hrem
+  | cons x xs ih =>
+    intro pad rest fuel st hm hpad hrem hlen hfuel
+    cases fuel with
+    | zero => simp at hfuel
+    | succ n =>
+      have hmx : Wire.V9.wfRecord ctx.tr x = true := hm x (by simp)
+      have hxlen := encodeRecord_length _ x hmx
+      simp only [setLoop]
+      rw [body_cons] at hrem hlen
+      have hc : contCond ctx st.r = true := by
+        simp only [contCond, Bool.and_eq_true, decide_eq_true_eq]
+        constructor
+        · rw [hlen]; simp only [List.length_append]; omega
+        · rw [hrem]; simp only [List.length_append]; omega
+      rw [if_pos hc]
+      have hn01 : ¬ (ctx.setId = 0 ∨ ctx.setId = 1) := by omega
+      have hnres : ¬ (4 ≤ ctx.setId ∧ ctx.setId ≤ 255) := by omega
+      rw [if_neg hn01, if_neg hnres]
+      have hrem' : st.r = ⟨Wire.V9.encodeRecord ctx.tr x ++ (body ctx.tr xs ++ (pad ++ rest)), st.r.cnt⟩ := by
+        cases hst : st.r with
+        | mk rem cnt =>
+          rw [hst] at hrem
+          simp only at hrem ⊢
+          rw [hrem, List.append_assoc]
+      rw [hrem', decodeData_roundtrip ctx.tr x _ _ hmx]
+      simp only
+      have hne : ¬ (st.r.cnt + (Wire.V9.encodeRecord ctx.tr x).length = st.r.cnt) := by omega
+      rw [if_neg hne]
+      have := ih pad rest n
+        { st with r := ⟨body ctx.tr xs ++ (pad ++ rest), st.r.cnt + (Wire.V9.encodeRecord ctx.tr x).length⟩,
+                  recs := st.recs ++ [expectedRecord ctx.tr x] }
+        (fun r hr => hm r (by simp [hr])) hpad rfl
+        (by simp only [List.length_append, leftInt] at hlen ⊢; omega)
+        (by simp only [List.length_cons] at hfuel; omega)
+      rw [this]
+      simp only [body_cons, List.length_append, List.map_cons, List.append_assoc,
+        List.singleton_append, Nat.add_assoc]
+
+/-- the leftover skip eats exactly the padding the loop stopped in front of -/
+theorem skipRest_pad (ctx : Ctx) (st : St) (pad rest : Bytes) (c : Nat)
+    (hr : st.r = ⟨pad ++ rest, c⟩) (hleft : leftInt ctx st.r = (pad.length : Int)) :
+    skipRest ctx st none = ({ st with r := ⟨rest, c + pad.length⟩ }, none) := by
+  simp only [skipRest]
+  rw [if_neg (by simp), hleft]
+  by_cases hp : pad.length = 0
+  · have : pad = [] := List.eq_nil_of_length_eq_zero hp
+    subst this
+    simp only [List.length_nil, Int.natCast_zero, Int.lt_irrefl, if_false, Nat.add_zero]
+    cases st with
+    | mk r cache rs => simp at hr ⊢; exact hr
+  · have hpos : ((pad.length : Nat) : Int) > 0 := by omega
+    rw [if_pos hpos, hr]
+    simp only [Int.toNat_natCast]
+    rw [readN_append]
+
+theorem body_length_ge (t : Template) (hbig : 4 < Wire.V9.recLen t) :
+    ∀ (records : List (List Bytes)), (∀ x ∈ records, Wire.V9.wfRecord t x = true) →
+      records.length ≤ (body t records).length := by
+  intro records
+  induction records with
+  | nil => intro _; simp
+  | cons x xs ih =>
+    intro h
+    have := ih (fun r hr => h r (by simp [hr]))
+    have hx := encodeRecord_length t x (h x (by simp))
+    simp only [body_cons, List.length_append, List.length_cons]
+    omega
+
+theorem encodeSet_length (id : Nat) (b pad : Bytes) :
+    (Wire.V9.encodeSet id b pad).length = 4 + (b.length + pad.length) := by
+  simp [Wire.V9.encodeSet, be16_length]; omega
+
+/-- reading the 4-octet flowset header -/
+theorem decodeSet_header (addr : Bytes) (fuel id : Nat) (b pad rest : Bytes) (c : Nat)
+    (cache : Cache) (recs : List Record) (hid : id < 65536)
+    (hlen : 4 + (b ++ pad).length < 65536) :
+    decodeSet addr fuel ⟨⟨Wire.V9.encodeSet id b pad ++ rest, c⟩, cache, recs⟩ =
+      setBody addr id (4 + (b ++ pad).length) c fuel ⟨⟨b ++ (pad ++ rest), c + 4⟩, cache, recs⟩ := by
+  simp only [decodeSet, Wire.V9.encodeSet, List.append_assoc]
+  rw [rU16_be16 id hid]
+  simp only
+  rw [rU16_be16 _ (by simpa using hlen)]
+  simp only
+  rw [if_neg (by omega)]
+
+/-- **C06 level 2b (data flowset)**: `decodeSet` consumes the whole encoded data flowset (padding
+included), appends exactly the expected records, leaves the cache unchanged, reports no error -/
+theorem decodeSet_data (addr : Bytes) (t : Template) (records : List (List Bytes)) (pad rest : Bytes)
+    (c fuel : Nat) (cache : Cache) (recs : List Record)
+    (hw : Wire.V9.wfSet addr cache (.data t records pad) = true) (hfuel : records.length < fuel) :
+    decodeSet addr fuel ⟨⟨Wire.V9.encodeDataSet t records pad ++ rest, c⟩, cache, recs⟩ =
+      (⟨⟨rest, c + (Wire.V9.encodeDataSet t records pad).length⟩, cache,
+        recs ++ records.map (expectedRecord t)⟩, none) := by
+  simp only [Wire.V9.wfSet, Wire.V9.wfSetLen, Bool.and_eq_true, decide_eq_true_eq, beq_iff_eq,
+    List.all_eq_true] at hw
+  obtain ⟨⟨⟨⟨⟨⟨h255, h64k⟩, hlk⟩, hbig⟩, _⟩, hrec⟩, hpad, hlen⟩ := hw
+  unfold Wire.V9.encodeDataSet
+  rw [decodeSet_header addr fuel t.tid _ pad rest c cache recs h64k hlen]
+  simp only [setBody, lookupTpl, if_pos h255, hlk, Option.getD_some]
+  have hb : (records.map (Wire.V9.encodeRecord t)).flatten = body t records := rfl
+  rw [hb] at hlen ⊢
+  have hloop := setLoop_data ⟨addr, t.tid, 4 + (body t records ++ pad).length, c, t⟩ h255 hbig
+    records pad rest fuel ⟨⟨body t records ++ (pad ++ rest), c + 4⟩, cache, recs⟩
+    hrec hpad rfl (by simp only [leftInt, List.length_append]; omega) hfuel
+  rw [hloop]
+  simp only
+  rw [skipRest_pad _ _ pad rest (c + 4 + (body t records).length) rfl
+    (by simp only [leftInt, List.length_append]; omega)]
+  simp only [encodeSet_length, List.length_append] at hlen ⊢
+  have e : c + 4 + (body t records).length + pad.length = c + (4 + ((body t records).length + pad.length)) := by omega
+  rw [e]
+
 end Vflow.V9
